@@ -11,13 +11,14 @@ import world
 class HistProp:
     kernel_files = []
     oracle_vos = ['theories/Run/SCore.vo']
-    model_vos = []
+    model_vos = ['theories/Run/RCore.vo']
+    kernel_files = ['KCore.v']
     oracle_imports = ['From DM Require Import Run.SCore.']
     model_imports = ['From DM Require Import Run.SCore Run.RCore.']
     exhaustive = False
     weights = None
     steps_quick = (10, 22)
-    n_quick = 250
+    n_quick = 800
     steps_thorough = (10, 40)
     n_thorough = 3000
     gen_kw = {}
@@ -46,18 +47,22 @@ class HistProp:
         ops_list = [{k: v for k, v in o.items() if k != 'perm'} for o in inp['ops']]
         return self.make_case(ops_list, inp.get('seed', 0), tags=['replay'])
 
+    def _one(self, args):
+        i, seed, lo, hi = args
+        sub = random.Random(seed)
+        prefix = self.prefixes[i % len(self.prefixes)]
+        ops_list = histgen.gen_history(sub, sub.randint(lo, hi), weights=self.weights, seed=seed, prefix=prefix,
+                                       big_first=self.big_first, **self.gen_kw)
+        return self.make_case(ops_list, seed)
+
     def generate(self, rng, tier):
-        cases = []
+        import multiprocessing
         lo, hi = self.steps_quick if tier == 'quick' else self.steps_thorough
         n = self.n_quick if tier == 'quick' else self.n_thorough
-        for i in range(n):
-            seed = rng.randrange(1 << 30)
-            sub = random.Random(seed)
-            prefix = self.prefixes[i % len(self.prefixes)]
-            ops_list = histgen.gen_history(sub, sub.randint(lo, hi), weights=self.weights, seed=seed, prefix=prefix, big_first=self.big_first,
-                                           **self.gen_kw)
-            cases.append(self.make_case(ops_list, seed))
-        return cases
+        jobs = [(i, rng.randrange(1 << 30), lo, hi) for i in range(n)]
+        ctx = multiprocessing.get_context('fork')
+        with ctx.Pool(min(16, multiprocessing.cpu_count())) as pool:
+            return pool.map(self._one, jobs, chunksize=4)
 
     def shrink_candidates(self, inp):
         ops_list = inp['ops']
